@@ -1170,6 +1170,8 @@ htp_status_t htp_connp_RES_FINALIZE(htp_connp_t *connp) {
     }
     size_t bytes_left;
     unsigned char * data;
+    // How much of the probed line was carried over from earlier data chunks.
+    size_t buffered_before = (connp->out_buf != NULL) ? connp->out_buf_size : 0;
 
     if (htp_connp_res_consolidate_data(connp, &data, &bytes_left) != HTP_OK) {
         return HTP_ERROR;
@@ -1192,6 +1194,12 @@ htp_status_t htp_connp_RES_FINALIZE(htp_connp_t *connp) {
     }
 
     //unread last end of line so that RES_LINE works
+    if (buffered_before > 0) {
+        // The line started in an earlier chunk: only the bytes that came from the current
+        // chunk can be unread; the buffer goes back to what it held before this probe.
+        connp->out_buf_size = buffered_before;
+        bytes_left -= buffered_before;
+    }
     if (connp->out_current_read_offset < (int64_t)bytes_left) {
         connp->out_current_read_offset=0;
     } else {
